@@ -435,9 +435,9 @@ def _may_raise(n, fi, callee_summary, res):
                 closed = len(defs) == 1 and isinstance(defs[0], ast.Dict)
             if not closed:
                 return True
-        if isinstance(x, ast.BinOp) and isinstance(x.op, (ast.Div, ast.FloorDiv, ast.Mod)) and not (isinstance(x.right, ast.Constant) and x.right.value) \
-                and not (isinstance(x.right, ast.BinOp) and isinstance(x.right.op, ast.Mult) and isinstance(x.right.right, ast.Constant)):
-            # division by something that may be zero
+        if isinstance(x, ast.BinOp) and isinstance(x.op, (ast.Div, ast.FloorDiv, ast.Mod)) and not (isinstance(x.right, ast.Constant) and x.right.value):
+            # division by something that may be zero (a configured value times a constant included: the constructor
+            # accepts timeout_seconds=0)
             if not _nonzero(x.right):
                 return True
         # turning an *evaluated value* into text can raise: int → str beyond the interpreter's digit limit
